@@ -147,14 +147,24 @@ class SimPath:
     def __getattr__(self, name: str) -> Any:
         return getattr(_os.path, name)
 
+    # os.path.exists/isfile/isdir never raise: an OSError from stat() reads as False
     def exists(self, p):
-        return _seam("stat", p, lambda: _os.path.exists(p))
+        try:
+            return _seam("stat", p, lambda: _os.path.exists(p))
+        except OSError:
+            return False
 
     def isfile(self, p):
-        return _seam("stat", p, lambda: _os.path.isfile(p))
+        try:
+            return _seam("stat", p, lambda: _os.path.isfile(p))
+        except OSError:
+            return False
 
     def isdir(self, p):
-        return _seam("stat", p, lambda: _os.path.isdir(p))
+        try:
+            return _seam("stat", p, lambda: _os.path.isdir(p))
+        except OSError:
+            return False
 
     def getsize(self, p):
         return _seam("stat", p, lambda: _os.path.getsize(p))
@@ -225,9 +235,17 @@ class SimOS:
                         for k, v in list(ls.items()):
                             if v == (a.proc.name, fd):
                                 del ls[k]
-        # closing never fails in the fault model before the effect without leaking: treat as a
-        # normal seam (an injected error leaves the fd open, as EINTR/EIO on close may)
-        return _seam("close", p, do, {"fd": fd})
+        # On Linux close() always releases the descriptor, even when it reports EIO/EINTR: an injected
+        # error on close is therefore delivered AFTER the real close.
+        try:
+            return _seam("close", p, do, {"fd": fd})
+        except OSError:
+            if a is not None and fd in a.proc.fds:
+                try:
+                    do()
+                except OSError:
+                    pass
+            raise
 
     # -- path based
     def replace(self, src, dst, **kw):
@@ -323,7 +341,13 @@ class SimOS:
                     else:
                         files.append(n)
                 return dirs, files
-            r = _seam("list", d, do)
+            try:
+                r = _seam("list", d, do)
+            except OSError as e:
+                # os.walk ignores errors from scandir() unless onerror is given
+                if onerror is not None:
+                    onerror(e)
+                continue
             if r is None:
                 continue
             dirs, files = r
